@@ -676,6 +676,18 @@ theorem symmetrize_side_as_written (center : Rat) (p : V3) :
     sideHolds Gen.XformFacts.symmSideTest center p = decide (center < p.x) := by
   simp only [sideHolds, Gen.XformFacts.symmSideTest, Cmp.holdsRat, colOf]
 
+/-- **symmetrize_extent_as_written.** For BOTH bounding-box layouts `mirror_brain` accepts, the cells the CURRENT source
+of `symmetrize_brain` reads as `(x_min, x_max)` are the template's `lo_x` and `hi_x`: the rows that are symmetrized are
+those right of the template's real midplane `lo_x + (hi_x − lo_x) / 2` (`symmetrize_spec`).  (Before navis' `fix:` the
+extent was read as `bbox[0][0], bbox[0][1]` whatever the layout — `(lo_x, lo_y)` for a `(2, 3)` box.) -/
+theorem symmetrize_extent_as_written (lo hi : V3) :
+    Gen.XformFacts.symmExtent.map (·.1) = ["(2, 3)", "(3, 2)"]
+    ∧ ∀ e ∈ Gen.XformFacts.symmExtent, cellOf e.1 lo hi e.2.1 = lo.x ∧ cellOf e.1 lo hi e.2.2 = hi.x := by
+  refine ⟨by decide, ?_⟩
+  intro e he
+  simp only [Gen.XformFacts.symmExtent, List.mem_cons, List.mem_nil_iff, or_false] at he
+  rcases he with rfl | rfl <;> simp [cellOf, cell23, cell32, colOf]
+
 /-- **source_facts_as_modelled.** The remaining literal facts the models hard-wire, as the CURRENT source states them:
 how the axis size is read from both bounding-box layouts (`bbox[ix, :].sum()` / `bbox[:, ix].sum()`, i.e. `lo + hi`),
 faces re-wound for MeshNeuron and Trimesh in `mirror_brain` and never in `symmetrize_brain`, the un-warped flip back
